@@ -1,11 +1,13 @@
 //! Shared machinery of the conformance harnesses: expectation vocabulary, observation
 //! projection, instrumented containers, panic capture, reporting.
 pub mod exp;
+pub mod outbuf;
 pub mod report;
 pub mod spy;
 pub mod util;
 
 pub use exp::*;
+pub use outbuf::*;
 pub use report::*;
 pub use spy::*;
 pub use util::*;
